@@ -234,8 +234,8 @@ pub fn run_memory(cfg: &RunCfg, replay: Option<&[Step]>) -> RunOutput {
 fn run_generic<S: mdk_storage_traits::MdkStorageProvider + Send + Sync + 'static>(cfg: &RunCfg, _replay: Option<&[Step]>, storage: Arc<S>, install: fn(Box<dyn FnMut()>), remove: fn()) -> RunOutput {
     let mut out = empty_output(cfg);
     let mut r = Rng::new(cfg.seed).fork(1919);
-    let n_threads = [2usize, 2, 3, 3, 4, 6, 8][r.below(7) as usize];
-    let total_ops = 12usize;
+    let n_threads = [2usize, 2, 3, 3, 4, 6, 8, 12, 16][r.below(9) as usize];
+    let total_ops = if n_threads > 8 { 16usize } else { 12 };
     let per = (total_ops / n_threads).max(1);
     // initial state: both groups exist
     let mut model = Model::default();
